@@ -14,20 +14,10 @@ PROB_KEYS = ("prob", "term_prob", "trans_prob")
 
 
 def conjuncts(e, pol=True):
-    """Flatten a guard into conjunct texts (with polarity)."""
-    if pol and isinstance(e, ast.BoolOp) and isinstance(e.op, ast.And):
-        out = []
-        for v in e.values:
-            out += conjuncts(v, True)
-        return out
-    if not pol and isinstance(e, ast.BoolOp) and isinstance(e.op, ast.Or):
-        out = []
-        for v in e.values:
-            out += conjuncts(v, False)
-        return out
-    if isinstance(e, ast.UnaryOp) and isinstance(e.op, ast.Not):
-        return conjuncts(e.operand, not pol)
-    return [(src(e), pol)]
+    """Canonical conjunct texts of a guard (polarity folded in, comparisons oriented): [(text, True)]."""
+    from ..ctext import cconj
+
+    return [(t, True) for t in cconj(e, pol)]
 
 
 def site_guards(cfg, node, upto=None):
@@ -71,41 +61,35 @@ def _loop_var(lp):
 def node_cover(eng, res, fi, rule="R-NODE-COVER"):
     flow = eng.flow(fi)
     cfg = flow.cfg
-    # element dispatch: both kinds handled, anything else raises
+    # element dispatch: both kinds handled, anything else raises (decided on the guards of the registering statements)
     loops = [l for l in own_nodes(fi.node) if isinstance(l, ast.For) and src(l.iter) == "self._elements" and not cfg.enclosing_loops(l)]
     disp = None
-    for l in loops:
-        ifs = [s for s in l.body if isinstance(s, ast.If)]
-        if ifs and "isinstance" in src(ifs[0].test):
-            disp = (l, ifs[0])
-            break
-    ok = disp is not None
+    ok = False
     why = "no element dispatch loop"
-    if ok:
-        l, top = disp
-        tests = []
-        cur = top
-        final_raises = False
-        while True:
-            tests.append(src(cur.test))
-            if len(cur.orelse) == 1 and isinstance(cur.orelse[0], ast.If):
-                cur = cur.orelse[0]
-                continue
-            final_raises = any(isinstance(x, ast.Raise) for x in cur.orelse)
-            break
+    for l in loops:
         v = _loop_var(l)
-        ok = f"isinstance({v}, SmilesToken)" in tests and f"isinstance({v}, Stochastic)" in tests and final_raises
-        why = f"dispatch tests {tests}, other kinds raise: {final_raises}"
-        body_txt = " ".join(src(s) for s in top.body) + " ".join(src(s) for s in (top.orelse[0].body if top.orelse and isinstance(top.orelse[0], ast.If) else []))
-        ok = ok and "repeat_tokens" in body_txt and "end_tokens" in body_txt
+        regs = [st for st in ast.walk(l) if isinstance(st, ast.Assign) and isinstance(st.targets[0], ast.Subscript) and isinstance(st.targets[0].value, ast.Name)]
+        if not regs:
+            continue
+        disp = (l, regs[0])
+        tok_regs, sto_regs = [], []
+        for st in regs:
+            g = {t for t, _ in site_guards(cfg, st, l)}
+            if f"isinstance({v}, SmilesToken)" in g and src(st.value) == v and src(st.targets[0].slice) == v:
+                tok_regs.append(st)
+            if f"isinstance({v}, Stochastic)" in g and src(st.value) == v:
+                lp2 = [x for x in cfg.enclosing_loops(st) if isinstance(x, ast.For) and x is not l]
+                if lp2 and "repeat_tokens" in src(lp2[0].iter) and "end_tokens" in src(lp2[0].iter) and src(st.targets[0].slice) == _loop_var(lp2[0]):
+                    sto_regs.append(st)
+        raises = [r for r in ast.walk(l) if isinstance(r, ast.Raise)]
+        rg = [{t for t, _ in site_guards(cfg, r, l)} for r in raises]
+        raise_ok = any(f"not isinstance({v}, SmilesToken)" in g and f"not isinstance({v}, Stochastic)" in g for g in rg)
+        ok = len(tok_regs) == 1 and len(sto_regs) == 1 and raise_ok
+        why = f"token registrations {len(tok_regs)}, stochastic registrations {len(sto_regs)}, other kinds raise: {raise_ok}"
     res.ob(rule, fi, "element-dispatch", "every element is registered: plain tokens, and for stochastic objects every repeat AND end token; any other kind raises", fi.node, ok, why)
     # one add_node per residue, one per descriptor
     adds = calls(fi, "add_node")
-    rname = None
-    if disp is not None:
-        for st in ast.walk(disp[1]):
-            if isinstance(st, ast.Assign) and isinstance(st.targets[0], ast.Subscript) and isinstance(st.targets[0].value, ast.Name):
-                rname = st.targets[0].value.id
+    rname = disp[1].targets[0].value.id if disp is not None else None
     res_nodes = [c for c in adds if c.args and any(isinstance(l, ast.For) and src(l.iter) == rname for l in cfg.enclosing_loops(c)) and src(c.args[0]) == _loop_var([l for l in cfg.enclosing_loops(c) if isinstance(l, ast.For)][-1])]
     bd_nodes = [c for c in adds if c.args and any(isinstance(l, ast.For) and src(l.iter).endswith(".bond_descriptors") for l in cfg.enclosing_loops(c))]
     ok = len(res_nodes) >= 1 and len(bd_nodes) == 1
@@ -183,7 +167,7 @@ def norm_agree(eng, res, fi, rule="R-NORM-AGREE"):
             ge = {(rename(t, ve), p) for t, p in site_guards(cfg, s.call, lp_e)}
             extra = ge - ga
             missing = ga - ge
-            extra_ok = all(t == "§v.weight > 0" and p for t, p in extra)
+            extra_ok = all(t == "0 < §v.weight" and p for t, p in extra)
             order_ok = cfg.node_of(lp_e) in cfg.reachable([cfg.node_of(lp_a)]) and cfg.node_of(lp_a) not in cfg.reachable([cfg.node_of(lp_e)]) or _nested_same_outer(cfg, lp_a, lp_e)
             # other definitions of the normaliser: zero init, and the near-zero reset to 1
             others = [x for x in flow.defs if x.name == den and x.kind == "assign" and _same_family(cfg, x.stmt, lp_e, init=True)]
@@ -248,6 +232,7 @@ def _kinds(pos):
 
 
 def pool_agree(eng, res, fi, rule="R-POOL-AGREE"):
+    from ..ctext import cpat
     from ..pat import solve, unify
 
     flow = eng.flow(fi)
@@ -269,7 +254,7 @@ def pool_agree(eng, res, fi, rule="R-POOL-AGREE"):
         N = envN["N"] if envN else None
         if s.key in ("prob", "term_prob"):
             pool = "repeat_tokens" if s.key == "prob" else "end_tokens"
-            ok = N is not None and solve([f"$D[{s.a1}] in {N}.{pool}"], pos) is not None and kinds.get(N) == "Stochastic"
+            ok = N is not None and solve([cpat(f"$D[{s.a1}] in {N}.{pool}")], pos) is not None and kinds.get(N) == "Stochastic"
             what = ("reaction edges range over repeat-unit descriptors (the growth pool)" if s.key == "prob"
                     else "termination edges range over end-group descriptors (the capping pool)")
         else:
@@ -283,7 +268,7 @@ def pool_agree(eng, res, fi, rule="R-POOL-AGREE"):
                 if isinstance(s.value, ast.Constant):
                     # a constant probability must not be claimed for a target the generator never picks (weight 0)
                     need += [f"{s.a1}.weight > 0"]
-            ok = N is not None and E is not None and kinds.get(N) in ("Stochastic", "SmilesToken") and solve(need, pos) is not None
+            ok = N is not None and E is not None and kinds.get(N) in ("Stochastic", "SmilesToken") and solve([cpat(x) for x in need], pos) is not None
             combos.add((kinds.get(E, "?"), kinds.get(N, "?")))
             pairs.append((E, N))
             what = ("inter-element edges enter only the next element's repeat-unit descriptors admitted by its left terminal and leave only "
